@@ -7,8 +7,14 @@
 #include <stdlib.h>
 #include <string.h>
 #include <unistd.h>
+#include <signal.h>
+#include <fcntl.h>
+#include <sched.h>
 #include <inttypes.h>
 #include <sys/wait.h>
+#include <sys/mman.h>
+#include <pthread.h>
+#include <stdatomic.h>
 #include <time.h>
 
 #define MAXH 16
@@ -16,9 +22,27 @@ static PShmBuffer *hs[MAXH];
 static PShm *spy;            /* independent full mapping of the same name */
 static char name[128];
 static int gen;
-static int creator = -1;   /* the handle that created the segment; it is an owner, closing it removes the name */
+static int owner[MAXH];    /* the handle unlinks the name when freed: the creating handle, and any handle after `own` */
 
-static void newname (void) { snprintf (name, sizeof name, "pvsb-%d-%d", (int) getpid (), gen++); }
+static PShmBuffer *grave[64]; static int ngrave;   /* `abandon`: handles whose holder is gone without freeing them (a killed process) */
+
+static int nopen (void) { int n = 0; for (int i = 0; i < MAXH; ++i) if (hs[i]) ++n; return n; }
+
+/* caller memory for lengths far beyond any capacity: address space only (never touched unless the library does) */
+static unsigned char *big_alloc (size_t len) {
+	void *p = mmap (NULL, len, PROT_READ | PROT_WRITE, MAP_PRIVATE | MAP_ANONYMOUS | MAP_NORESERVE, -1, 0);
+	return p == MAP_FAILED ? NULL : p;
+}
+#define BIG ((size_t) 1 << 20)
+
+/* unique per run: process ids are recycled quickly on a busy machine, and a run killed by a watchdog leaves its
+ * segment and lock semaphore behind (a stale lock of value 0 would block the next harness that gets the same pid) */
+static long long run_tag (void) {
+	static long long t;
+	if (!t) { struct timespec ts; clock_gettime (CLOCK_REALTIME, &ts); t = (long long) ts.tv_sec * 1000000000LL + ts.tv_nsec; }
+	return t;
+}
+static void newname (void) { snprintf (name, sizeof name, "pvsb-%d-%llx-%d", (int) getpid (), run_tag (), gen++); }
 
 static int hexv (int c) { return c <= '9' ? c - '0' : (c | 32) - 'a' + 10; }
 
@@ -32,13 +56,22 @@ static int tail_dirty (void) {
 }
 
 static void drop_all (void) {
-	/* one owner removes the name; the others are plain frees */
+	/* followers first (plain frees), then the owners: the first one removes the name; a second owner (after `own`)
+	 * finds it gone, and the library says so on stdout: keep that out of the answer stream */
 	int owned = 0;
-	for (int i = 0; i < MAXH; ++i) if (hs[i]) {
-		if (!owned) { p_shm_buffer_take_ownership (hs[i]); owned = 1; }
-		p_shm_buffer_free (hs[i]); hs[i] = NULL;
+	fflush (stdout);
+	int save = dup (1), nul = open ("/dev/null", O_WRONLY);
+	if (nul >= 0) { dup2 (nul, 1); close (nul); }
+	for (int i = 0; i < MAXH; ++i) if (hs[i] && !owner[i]) { p_shm_buffer_free (hs[i]); hs[i] = NULL; }
+	if (spy) {
+		for (int i = 0; i < MAXH; ++i) if (hs[i]) owned = 1;
+		if (!owned) p_shm_take_ownership (spy);
+		p_shm_free (spy); spy = NULL;
 	}
-	if (spy) { if (!owned) p_shm_take_ownership (spy); p_shm_free (spy); spy = NULL; }
+	for (int i = 0; i < MAXH; ++i) if (hs[i]) { p_shm_buffer_free (hs[i]); hs[i] = NULL; }
+	while (ngrave) p_shm_buffer_free (grave[--ngrave]);      /* last: their unlink finds nothing any more */
+	fflush (stdout);
+	if (save >= 0) { dup2 (save, 1); close (save); }
 }
 
 /* supporting run (failing-input search for the atomicity clause): a producer process and a consumer
@@ -47,7 +80,7 @@ static void drop_all (void) {
 static unsigned char stream_byte (unsigned long long pos) { return (unsigned char) ((pos * 2654435761ULL) >> 13); }
 
 static const char *stress (size_t cap, size_t chunk, unsigned long long total) {
-	char nm[128]; snprintf (nm, sizeof nm, "pvsbx-%d-%d", (int) getpid (), gen++);
+	char nm[128]; snprintf (nm, sizeof nm, "pvsbx-%d-%llx-%d", (int) getpid (), run_tag (), gen++);
 	PShmBuffer *c = p_shm_buffer_new (nm, cap, NULL);
 	if (!c) return "stress setup-failed";
 	pid_t pid = fork ();
@@ -82,6 +115,104 @@ static const char *stress (size_t cap, size_t chunk, unsigned long long total) {
 	return res;
 }
 
+/* supporting run, several producers and consumers: P producer PROCESSES (one handle each) write frames of exactly
+ * `chunk` bytes [producer, seq(4), payload…]; C consumer THREADS of this process share ONE handle and read `chunk`
+ * bytes at a time.  Writes and reads being atomic, the used space is always a whole number of frames, every read
+ * returns 0 or one whole frame, every frame is self-consistent, arrives exactly once, and in order per producer and
+ * consumer.  The main thread meanwhile asks for used/free space: their sum is the capacity at every instant. */
+#define MAXP 8
+struct mp { PShmBuffer *c; size_t cap, chunk; unsigned per; int P; atomic_uint got[MAXP]; atomic_int bad; atomic_int stop; atomic_uchar *seen; };
+
+static unsigned char frame_byte (unsigned p, unsigned seq, size_t i) { return (unsigned char) ((p * 131u + seq * 2654435761u + (unsigned) i * 40503u) >> 7); }
+
+static void *mp_consumer (void *arg) {
+	struct mp *m = arg;
+	unsigned char *b = malloc (m->chunk);
+	unsigned last[MAXP]; int have[MAXP] = {0};
+	while (!atomic_load (&m->stop) && !atomic_load (&m->bad)) {
+		pint r = p_shm_buffer_read (m->c, b, m->chunk, NULL);
+		if (r == 0) { sched_yield (); continue; }
+		if (r != (pint) m->chunk) { atomic_store (&m->bad, 1); break; }          /* a torn frame */
+		unsigned p = b[0], seq; memcpy (&seq, b + 1, 4);
+		if (p >= (unsigned) m->P || seq >= m->per) { atomic_store (&m->bad, 2); break; }
+		for (size_t i = 5; i < m->chunk; ++i) if (b[i] != frame_byte (p, seq, i)) { atomic_store (&m->bad, 3); break; }
+		if (have[p] && seq <= last[p]) atomic_store (&m->bad, 4);                  /* order per producer */
+		have[p] = 1; last[p] = seq;
+		if (atomic_exchange (&m->seen[(size_t) p * m->per + seq], 1)) atomic_store (&m->bad, 5);   /* delivered twice */
+		atomic_fetch_add (&m->got[p], 1);
+	}
+	free (b);
+	return NULL;
+}
+
+static const char *stress_mp (size_t cap, size_t chunk, unsigned long long total, int P, int C) {
+	static char res[96];
+	if (P < 1 || P > MAXP || C < 1 || C > 8 || chunk < 6 || chunk > cap) return "stress bad-arguments";
+	char nm[128]; snprintf (nm, sizeof nm, "pvsbx-%d-%llx-%d", (int) getpid (), run_tag (), gen++);
+	struct mp m; memset (&m, 0, sizeof m);
+	m.cap = cap; m.chunk = chunk; m.P = P;
+	m.per = (unsigned) (total / chunk / (unsigned) P); if (m.per == 0) m.per = 1;
+	m.c = p_shm_buffer_new (nm, cap, NULL);
+	if (!m.c) return "stress setup-failed";
+	m.seen = calloc ((size_t) P * m.per, 1);
+	pid_t pids[MAXP];
+	for (int p = 0; p < P; ++p) {
+		fflush (stdout);
+		if ((pids[p] = fork ()) == 0) {
+			PShmBuffer *h = p_shm_buffer_new (nm, p % 2 ? 0 : cap, NULL);      /* every other producer opens with size 0 */
+			unsigned char *b = malloc (chunk);
+			time_t t0 = time (NULL); unsigned seq = 0;
+			while (h && seq < m.per && time (NULL) - t0 < 20) {
+				b[0] = (unsigned char) p; memcpy (b + 1, &seq, 4);
+				for (size_t i = 5; i < chunk; ++i) b[i] = frame_byte ((unsigned) p, seq, i);
+				pssize r = p_shm_buffer_write (h, b, chunk, NULL);
+				if (r < 0) _exit (3);
+				if (r == (pssize) chunk) ++seq; else if (r != 0) _exit (4); else sched_yield ();
+			}
+			if (h) p_shm_buffer_free (h);
+			_exit (seq == m.per ? 0 : 2);
+		}
+	}
+	pthread_t th[8];
+	for (int c = 0; c < C; ++c) pthread_create (&th[c], NULL, mp_consumer, &m);
+	PShmBuffer *q = p_shm_buffer_new (nm, cap, NULL);
+	time_t t0 = time (NULL); int left = P; int pbad = 0;
+	while (time (NULL) - t0 < 25 && !atomic_load (&m.bad)) {
+		unsigned long long n = 0; for (int p = 0; p < P; ++p) n += atomic_load (&m.got[p]);
+		if (n >= (unsigned long long) m.per * (unsigned) P) break;
+		if (q) {
+			pssize u = p_shm_buffer_get_used_space (q, NULL), f = p_shm_buffer_get_free_space (q, NULL);
+			if (u < 0 || f < 0 || (size_t) u % chunk || (size_t) f > cap || (size_t) u > cap) atomic_store (&m.bad, 6);
+		}
+		for (int p = 0; p < P; ++p) if (pids[p] > 0) {
+			int st;
+			if (waitpid (pids[p], &st, WNOHANG) == pids[p]) { pids[p] = 0; --left; if (!WIFEXITED (st) || WEXITSTATUS (st)) pbad = 1; }
+		}
+		if (pbad) break;
+	}
+	atomic_store (&m.stop, 1);
+	for (int c = 0; c < C; ++c) pthread_join (th[c], NULL);
+	for (int p = 0; p < P; ++p) if (pids[p] > 0) {
+		int st;
+		/* all frames may have arrived while the producer is still leaving: give it a moment before the kill */
+		int done = 0;
+		for (int k = 0; k < 200 && !(done = waitpid (pids[p], &st, WNOHANG) != 0); ++k) usleep (1000);
+		if (!done) { kill (pids[p], SIGKILL); waitpid (pids[p], &st, 0); }
+		pids[p] = 0;
+	}
+	(void) left;
+	unsigned long long n = 0; for (int p = 0; p < P; ++p) n += atomic_load (&m.got[p]);
+	int bad = atomic_load (&m.bad);
+	if (bad) snprintf (res, sizeof res, "stress MIXED-FRAMES(%d)", bad);
+	else if (pbad) snprintf (res, sizeof res, "stress producer-failed");
+	else if (n != (unsigned long long) m.per * (unsigned) P) snprintf (res, sizeof res, "stress frames-lost-or-timeout");
+	else snprintf (res, sizeof res, "stress ok");
+	if (q) p_shm_buffer_free (q);
+	p_shm_buffer_take_ownership (m.c); p_shm_buffer_free (m.c);
+	free ((void *) m.seen);
+	return res;
+}
+
 int main (void) {
 	static char line[1 << 20], op[16], arg[1 << 19];
 	p_libsys_init ();
@@ -92,11 +223,25 @@ int main (void) {
 		if (n < 1) continue;
 		if (!strcmp (op, "new") && n == 3 && h < MAXH && !hs[h]) {
 			hs[h] = p_shm_buffer_new (name, (psize) strtoull (arg, NULL, 10), NULL);
-			if (hs[h] && creator < 0) creator = (int) h;
+			owner[h] = hs[h] && !spy;       /* no segment before this call: this handle created it */
 			if (hs[h] && !spy) spy = p_shm_new (name, 0, P_SHM_ACCESS_READWRITE, NULL);
 			puts (hs[h] ? "ok" : "fail");
-		} else if (!strcmp (op, "close") && n == 2 && h < MAXH && hs[h] && (int) h != creator) {
-			p_shm_buffer_free (hs[h]); hs[h] = NULL; puts ("ok");
+		} else if (!strcmp (op, "own") && n == 2 && h < MAXH && hs[h]) {
+			p_shm_buffer_take_ownership (hs[h]); owner[h] = 1; puts ("ok");
+		} else if (!strcmp (op, "close") && n == 2 && h < MAXH && hs[h] && (!owner[h] || nopen () == 1)) {
+			if (owner[h] && spy) { p_shm_free (spy); spy = NULL; }      /* the name goes away with its last handle, an owner */
+			p_shm_buffer_free (hs[h]); hs[h] = NULL; owner[h] = 0; puts ("ok");
+		} else if (!strcmp (op, "abandon") && n == 2 && h < MAXH && hs[h] && ngrave < 64) {
+			grave[ngrave++] = hs[h]; hs[h] = NULL; owner[h] = 0; puts ("ok");
+		} else if (!strcmp (op, "wz") && n == 3 && h < MAXH && hs[h]) {
+			size_t len = strtoull (arg, NULL, 10);
+			unsigned char *b = len > BIG ? big_alloc (len) : calloc (len ? len : 1, 1);
+			if (!b) puts ("harness-cannot-reserve");
+			else {
+				pssize r = p_shm_buffer_write (hs[h], b, len, NULL);
+				printf ("%lld\n", (long long) r);
+				if (len > BIG) munmap (b, len); else free (b);
+			}
 		} else if (!strcmp (op, "w") && n == 3 && h < MAXH && hs[h]) {
 			size_t len = (arg[0] == '-') ? 0 : strlen (arg) / 2;
 			unsigned char *b = malloc (len ? len : 1);
@@ -106,24 +251,29 @@ int main (void) {
 			free (b);
 		} else if (!strcmp (op, "r") && n == 3 && h < MAXH && hs[h]) {
 			size_t len = strtoull (arg, NULL, 10);
-			unsigned char *b = malloc (len ? len : 1);
-			pint r = p_shm_buffer_read (hs[h], b, len, NULL);
-			printf ("%d ", r);
-			for (int i = 0; i < r; ++i) printf ("%02x", b[i]);
-			printf ("\n");
-			free (b);
+			unsigned char *b = len > BIG ? big_alloc (len) : malloc (len ? len : 1);
+			if (!b) puts ("harness-cannot-reserve");
+			else {
+				pint r = p_shm_buffer_read (hs[h], b, len, NULL);
+				printf ("%d ", r);
+				for (int i = 0; i < r; ++i) printf ("%02x", b[i]);
+				printf ("\n");
+				if (len > BIG) munmap (b, len); else free (b);
+			}
 		} else if (!strcmp (op, "clr") && n == 2 && h < MAXH && hs[h]) { p_shm_buffer_clear (hs[h]); puts ("ok"); }
 		else if (!strcmp (op, "used") && n == 2 && h < MAXH && hs[h]) printf ("%lld\n", (long long) p_shm_buffer_get_used_space (hs[h], NULL));
 		else if (!strcmp (op, "free") && n == 2 && h < MAXH && hs[h]) printf ("%lld\n", (long long) p_shm_buffer_get_free_space (hs[h], NULL));
 		else if (!strcmp (op, "stress") && n == 3) {
-			/* stress CAP CHUNK:TOTAL */
+			/* stress CAP CHUNK:TOTAL[:PRODUCERS:CONSUMERS] */
 			size_t chunk = strtoull (arg, NULL, 10); char *c2 = strchr (arg, ':');
-			puts (stress ((size_t) h, chunk, c2 ? strtoull (c2 + 1, NULL, 10) : 1000000ULL));
+			char *c3 = c2 ? strchr (c2 + 1, ':') : NULL, *c4 = c3 ? strchr (c3 + 1, ':') : NULL;
+			unsigned long long total = c2 ? strtoull (c2 + 1, NULL, 10) : 1000000ULL;
+			puts (c4 ? stress_mp ((size_t) h, chunk, total, atoi (c3 + 1), atoi (c4 + 1)) : stress ((size_t) h, chunk, total));
 		}
 		else if (!strcmp (op, "pos") && n == 1) {
 			if (!spy) puts ("none");
 			else { size_t rw[2]; memcpy (rw, p_shm_get_address (spy), sizeof rw); printf ("%zu %zu\n", rw[0], rw[1]); }
-		} else if (!strcmp (op, "reset") && n == 1) { drop_all (); creator = -1; newname (); puts ("ok"); }
+		} else if (!strcmp (op, "reset") && n == 1) { drop_all (); memset (owner, 0, sizeof owner); newname (); puts ("ok"); }
 		else puts ("bad-op");
 		if (tail_dirty ()) { puts ("OOB-WRITE-BEHIND-SEGMENT"); fflush (stdout); drop_all (); return 3; }
 		fflush (stdout);
